@@ -1,5 +1,6 @@
 """rules about the evaluation machinery shared by C09 / C10 / C11 / C14"""
 import ast
+import re
 
 from .. import cfg as cfgmod
 from ..report import AnalysisError
@@ -39,6 +40,9 @@ def memo_discipline(repo, run, rule):
                 v('bad', tr.final_event(p), 'memo hit', 'a memo hit does not return the memoised object itself (returns %s)' % (p.ret.text[:50] if p.ret is not None else None))
             else:
                 v('ok', tr.final_event(p), 'memo hit', 'memo hit returns the stored object')
+        if not evals and not hits and not shits and p.status == 'return' and p.ret is not None and re.search(r'\bself\._eval_cache(?!_id)\b', p.ret.text) \
+                and ('isinstance(%s, ConfigNode)' % fi.params()[1], False) not in p.facts:
+            v('bad', tr.final_event(p), 'return of a value memoised by path', 'evaluate_node answers for a node with a value looked up by the text of its path (%s) without an identity-memo hit: path texts are not unique (the key "a.b" and `a: {b: ..}`, the key "l[1]" and element 1 of l), so another node\'s value is returned' % p.ret.text[:60])
         if not evals:
             continue
         n_eval += 1
